@@ -4,7 +4,7 @@
    [acc] is the wildcard acceptance callback; rope's two callbacks are [acc_default exact]. *)
 From Coq Require Import List NArith Bool.
 From RopeVerif.Lib Require Import Text.
-From RopeVerif.C19 Require Import Tree Matcher MatcherProofs FindProofs Restructure RestructureProofs Examples.
+From RopeVerif.C19 Require Import Tree Matcher MatcherProofs FindProofs Restructure RestructureProofs Precedence PrecedenceProofs Examples.
 Import ListNotations.
 
 (* rope's acceptance tests (isinstance(node, ast.expr); `exact`) only accept nodes and do not look at
@@ -163,9 +163,8 @@ Print Assumptions C19_identity_goal.
 (* Statement patterns: a character of the source lying in no match region is kept; [newpos] gives
    its offset in the new text and is strictly increasing on kept characters (C19_kept_order), so
    the text outside the matches is untouched.  [region_ok]: start <= end <= len(source).
-   Partial: expression patterns (nested replacement) are covered by the correspondence and the
-   oracle only. *)
-Theorem C19_untouched_outside_partial :
+   Expression patterns: C19_untouched_outside_expr below. *)
+Theorem C19_untouched_outside :
   forall src goal ms cs i,
     Forall (region_ok (tlen src)) ms ->
     stmt_changes src goal (sort_matches ms) 0 = LOk cs ->
@@ -173,7 +172,7 @@ Theorem C19_untouched_outside_partial :
     (forall a, In a ms -> ~ (fst (match_region a) <= i /\ i < snd (match_region a))%N) ->
     nth_error (apply_changes src cs) (newpos 0 cs i) = nth_error src (N.to_nat i).
 Proof. exact stmt_sorted_untouched_outside. Qed.
-Print Assumptions C19_untouched_outside_partial.
+Print Assumptions C19_untouched_outside.
 
 (* the same for any order of the matches (in particular the legacy traversal order) *)
 Theorem C19_untouched_outside_any_order :
@@ -199,6 +198,37 @@ Example C19_untouched_outside_nonvacuous :
   = CText [105;102;32;99;58;10;32;32;32;32;97;32;61;32;50;10;97;32;61;32;50;10]%N.
 Proof. exact (conj so_regions_ok so_result_sorted). Qed.
 Print Assumptions C19_untouched_outside_nonvacuous.
+
+(* Expression patterns (Restructure and restructure.replace): the new module text is the old one in
+   which the regions of the outermost matched nodes ([nearest matched body], _get_nearest_roots) are
+   replaced bottom-up; every character outside those regions is kept, at [newpos], in order
+   (C19_kept_order applies to the well-formed change list).  Hypotheses: the module node is not itself
+   a match and spans the source; the outermost matched nodes have pairwise disjoint regions inside the
+   source (boolean [roots_okb], evaluated per case by the runner). *)
+Theorem C19_untouched_outside_expr :
+  forall src goal matched f body r,
+    find_matched matched body = None ->
+    node_start body = 0%N -> node_end body = tlen src ->
+    ForallOrdPairs node_disj (nearest matched body) ->
+    Forall (fun n => (node_start n <= node_end n /\ node_end n <= tlen src)%N) (nearest matched body) ->
+    node_text src goal true matched (Datatypes.S f) body false = TOk r ->
+    exists cs,
+      map (fun c => (ch_start c, ch_end c)) cs
+      = map (fun n => (node_start n, node_end n)) (nearest matched body) /\
+      wf_changes 0 (sort_ch cs) (tlen src) /\
+      forall i, (i < tlen src)%N ->
+        (forall n, In n (nearest matched body) -> ~ (node_start n <= i /\ i < node_end n)%N) ->
+        nth_error r (newpos 0 (sort_ch cs) i) = nth_error src (N.to_nat i).
+Proof. exact expr_untouched_outside. Qed.
+Print Assumptions C19_untouched_outside_expr.
+
+Example C19_untouched_outside_expr_nonvacuous :
+  find_matched rp_matched rp_body = None /\ node_start rp_body = 0%N /\ node_end rp_body = tlen rp_src /\
+  length (nearest rp_matched rp_body) = 1%nat /\
+  Forall (fun n => (node_start n <= node_end n /\ node_end n <= tlen rp_src)%N) (nearest rp_matched rp_body) /\
+  ForallOrdPairs node_disj (nearest rp_matched rp_body).
+Proof. exact rp_expr_domain. Qed.
+Print Assumptions C19_untouched_outside_expr_nonvacuous.
 
 (* Each statement match is replaced: every match is replaced or starts inside a replaced one. *)
 Theorem C19_stmt_each_replaced :
@@ -260,3 +290,35 @@ Theorem C19_make_pattern_matches :
     exists n, In n (nodes body) /\ name_id n = Some v /\ a = MExpr n [(v, n)] /\ (node_end n <= len)%N.
 Proof. exact make_pattern_matches. Qed.
 Print Assumptions C19_make_pattern_matches.
+
+(* ---- meaning of textual insertion (model RopeVerif.C19.Precedence: the level / required-level
+   scheme of CPython's ast.unparse, generic in the operator table) ----
+   [pp c e] is the canonical text of e at an operand position requiring level c; [tsub] replaces the
+   wildcard tokens by texts, as _get_matched_text does; [fits sg c g]: every wildcard position of the
+   goal g (and g's own position) requires a level not above the level of the expression bound to it.
+   Then inserting the bare texts of the bound expressions gives exactly the canonical text of the
+   tree-level substitution. *)
+Theorem C19_subst_meaning :
+  forall sg g c,
+    fits sg c g = true ->
+    pp c (psubst sg g) = tsub (fun w => pp 0 (sg w)) (pp c g).
+Proof. exact subst_meaning. Qed.
+Print Assumptions C19_subst_meaning.
+
+Example C19_subst_meaning_nonvacuous :
+  fits sg_pow 0 goal_add = true /\
+  pp 0 (psubst sg_pow goal_add)
+  = [TTok [50%N]; TTok [42%N; 42%N]; TTok [49%N]; TTok [43%N]; TTok [50%N]].      (* 2 ** 1 + 2 *)
+Proof. exact subst_meaning_example. Qed.
+Print Assumptions C19_subst_meaning_nonvacuous.
+
+(* Outside the condition the statement fails: goal ${a} ** 2 with a -> 2 + 1 is not fit, the text
+   obtained is not the text of the substituted tree but the canonical text of 2 + (1 ** 2)
+   (open finding C19-precedence, whose signature is "fits is false"; replayed on rope). *)
+Theorem C19_precedence_refuted :
+  fits sg_sum 0 goal_pow = false /\
+  tsub (fun w => pp 0 (sg_sum w)) (pp 0 goal_pow) <> pp 0 (psubst sg_sum goal_pow) /\
+  tsub (fun w => pp 0 (sg_sum w)) (pp 0 goal_pow)
+  = pp 0 (add (atom [50%N]) (pow (atom [49%N]) (atom [50%N]))).
+Proof. exact precedence_refuted. Qed.
+Print Assumptions C19_precedence_refuted.
